@@ -650,7 +650,7 @@ def attribute1(m):
 
 PIPE_PROP = {"started-before-dependency-finished": {"C03"}, "more-tasks-than-num_workers": {"C03"}, "command-started-twice": {"C03"}, "target-hashed-twice": {"C03"},
              "hit-without-result": {"C01", "C02"}, "hit-although-tainted": {"C13"}, "hit-although-check-fails": {"C14"}, "hit-although-cache-disabled": {"C13"},
-             "hit-although-no-cache": {"C13"}, "result-written-for-failed-or-unfinished-target": {"C05", "C14"}, "outputs-stored-for-failed-or-unfinished-target": {"C05", "C14"}}
+             "hit-although-no-cache": {"C13"}, "command-before-dependency-outputs-loaded": {"C15"}, "result-written-for-failed-or-unfinished-target": {"C05", "C14"}, "outputs-stored-for-failed-or-unfinished-target": {"C05", "C14"}}
 _pipe_seq = [0]
 
 
